@@ -3,6 +3,7 @@ import MpVerif.C01.ModelProp
 import MpVerif.C01.ModelCompose
 import MpVerif.C01.ModelGadgets2
 import MpVerif.C01.ModelObjective
+import MpVerif.C01.ModelConvert
 /-!
 Line driver for C01 (exe `drv_c01`).  One op per line:
 
@@ -178,6 +179,105 @@ def parseQRoot? (s : String) : Option QRoot :=
 def parseBar {α} (f : String → Option α) (s : String) : Option (List α) :=
   if s == "" then some [] else (s.splitOn "|").mapM f
 
+/-! ### NL expressions of the reference converter's fragment: `add(v0,mul(2,abs(v1)))`, `le(v0,c3)`, … -/
+
+/-- split `a,b(c,d),e` at top-level commas -/
+def splitTop (s : String) : List String :=
+  let rec go (cs : List Char) (depth : Nat) (cur : String) (acc : List String) : List String :=
+    match cs with
+    | [] => (cur :: acc).reverse
+    | ch :: t =>
+      if ch == '(' then go t (depth + 1) (cur.push ch) acc
+      else if ch == ')' then go t (depth - 1) (cur.push ch) acc
+      else if ch == ',' && depth == 0 then go t depth "" (cur :: acc)
+      else go t depth (cur.push ch) acc
+  go s.toList 0 "" []
+
+/-- `name(args)` → (name, args) -/
+def splitCall (s : String) : Option (String × List String) :=
+  match s.splitOn "(" with
+  | name :: _ :: _ =>
+    if s.endsWith ")" then
+      let inner := String.ofList ((s.toList.drop (name.length + 1)).dropLast)
+      some (name, if inner == "" then [] else splitTop inner)
+    else none
+  | _ => none
+
+mutual
+partial def parseNE (s : String) : Option NE :=
+  if s.startsWith "c" && !s.contains '(' then (parseRat? (String.ofList (s.toList.drop 1))).map NE.c
+  else if s.startsWith "v" && !s.contains '(' then (String.ofList (s.toList.drop 1)).toNat?.map NE.v
+  else match splitCall s with
+    | some ("add", a :: t) => do
+      let a ← parseNE a
+      t.foldlM (fun acc b => do some (NE.add acc (← parseNE b))) a
+    | some ("neg", [a]) => do some (NE.mul (-1) (← parseNE a))
+    | some ("mul", [k, a]) => do some (NE.mul (← parseRat? k) (← parseNE a))
+    | some ("abs", [a]) => do some (NE.abs (← parseNE a))
+    | some ("max", l) => do some (NE.max (← parseNEs l))
+    | some ("min", l) => do some (NE.min (← parseNEs l))
+    | some ("ite", [c, t, e]) => do some (NE.ite (← parseLE c) (← parseNE t) (← parseNE e))
+    | some ("count", l) => do some (NE.count (← parseLEs l))
+    | _ => none
+partial def parseNEs (l : List String) : Option NEs :=
+  match l with
+  | [] => some .nil
+  | a :: t => do some (.cons (← parseNE a) (← parseNEs t))
+partial def parseLE (s : String) : Option LE :=
+  match splitCall s with
+  | some ("le", [a, b]) => do some (LE.cmp .le (← parseNE a) (← parseNE b))
+  | some ("ge", [a, b]) => do some (LE.cmp .ge (← parseNE a) (← parseNE b))
+  | some ("lt", [a, b]) => do some (LE.cmp .lt (← parseNE a) (← parseNE b))
+  | some ("gt", [a, b]) => do some (LE.cmp .gt (← parseNE a) (← parseNE b))
+  | some ("eq", [a, b]) => do some (LE.cmp .eq (← parseNE a) (← parseNE b))
+  | some ("and", l) => do some (LE.and (← parseLEs l))
+  | some ("or", l) => do some (LE.or (← parseLEs l))
+  | some ("not", [a]) => do some (LE.not (← parseLE a))
+  | _ => none
+partial def parseLEs (l : List String) : Option LEs :=
+  match l with
+  | [] => some .nil
+  | a :: t => do some (.cons (← parseLE a) (← parseLEs t))
+end
+
+def parseNLCon? (s : String) : Option (NE × Option Rat × Option Rat) :=
+  match s.splitOn ";" with
+  | [e, lb, ub] => do some (← parseNE e, ← parseBound? lb, ← parseBound? ub)
+  | _ => none
+
+def parseNLObj? (s : String) : Option (Sense × NE) :=
+  match s.splitOn ";" with
+  | ["min", e] => do some (Sense.min, ← parseNE e)
+  | ["max", e] => do some (Sense.max, ← parseNE e)
+  | _ => none
+
+def defStr (d : Def) : String :=
+  match d.f with
+  | .affine [] c => s!"{d.res};{d.ctx.toString};Const;{ratStr c}"
+  | f => s!"{d.res};{d.ctx.toString};" ++ ";".intercalate ((funStr f).splitOn " ")
+
+def rootStr (r : Root) : String := s!"{linStr r.body};{boundStr true r.lb};{boundStr false r.ub}"
+
+def convOutStr (o : ConvOut) : String :=
+  match o.refusal with
+  | some r => s!"refusal {r.toString}"
+  | none =>
+    let vs := (List.range' o.n0 (o.M - o.n0)).map fun v =>
+      let i := o.B v
+      let i := if o.fixTrue.contains v then { i with lb := some 1 } else i
+      s!"{v}:{viStr i}"
+    let rows := o.blocks.flatMap (·.cons) ++ (o.roots.filter (fun r => !(r.lb == some 1 && r.ub == none &&
+        (match r.body with | [(_, v)] => o.fixTrue.contains v | _ => false)))).map
+          (fun r => Con.linRange r.body r.lb r.ub)
+    s!"conv N={o.N} M={o.M} shortcut={if o.shortcut then 1 else 0}" ++
+      " |V| " ++ ";".intercalate vs ++
+      " |D| " ++ "|".intercalate (o.defs.map defStr) ++
+      " |R| " ++ "|".intercalate (o.roots.map rootStr) ++
+      " |O| " ++ (match o.obj with
+                  | some ob => (if ob.sense == .max then "max;" else "min;") ++ linStr ob.lin
+                  | none => "") ++
+      " |C| " ++ " ; ".intercalate (rows.map conStr)
+
 structure Args where
   kv : List (String × String)
 
@@ -286,6 +386,15 @@ def runOp (g : String) (a : Args) : Option String := do
   | "mulbin" => do     -- LinearizeProductWithBinaryVar: the IfThen term (result variable n)
     let b ← a.nat? "b"; let o' ← a.nat? "o"; let z ← a.nat? "zero"
     some (outStr (gMulBinTerm b o' z B n))
+  | "convert" => do    -- the reference converter (ModelConvert.lean) on an NL model of the fragment
+    let n0 ← a.nat? "n0"
+    let cons ← (a.get? "cons").getD "" |> parseBar parseNLCon?
+    let lcons ← (a.get? "lcons").getD "" |> parseBar parseLE
+    let obj ← match a.get? "obj" with | some t => (parseNLObj? t).map some | none => some none
+    let acc ← match a.get? "acc" with
+      | some "native" => some Acc.native | some "linear" => some Acc.linear | none => some Acc.linear | _ => none
+    let m : NLModel := { n0 := n0, B0 := B, obj := obj, cons := cons, lcons := lcons }
+    some (convOutStr (convert m { acc := acc, opts := o }))
   | "validate" => do   -- per-run validator of the composition theorem's hypotheses WF and CtxCovers
     let defs ← (a.get? "defs").getD "" |> parseBar parseDef?
     let roots ← (a.get? "roots").getD "" |> parseBar parseRoot?
